@@ -67,6 +67,8 @@ ASSUMPTIONS = [
     'consumer check: tolerance 1e-9 relative to sum_j |Gamma[i,j]| * (sum of absolute Taylor terms along ray j); '
     'reference = exact polynomial differentiation (oracles.ExactPoly, Fractions) resp. mpmath.diff at 40 digits',
     'extract_tensor(as_full_matrix=True) is only asserted for d = 2 (its docstring: "extracts the Hessian of shape (N,N)")',
+    'one third of the ridge cases stacks 2-3 outputs g_m(a_m.x) into a vector valued y (algopy.zeros(M, dtype=x), y[m] = ...): '
+    'extract_tensor(as_full_matrix=False) must return one column of partials per output',
     'base points of the consumer checks are passed to init_tensor as float64, int64, int32, float32 ndarrays, as lists of '
     'Python ints and as non-contiguous float64 views; the reference uses the float64 value of the point; the argument must '
     'be left unchanged',
@@ -454,55 +456,72 @@ RIDGE = {
 
 
 def prop_ridge(case, stats):
+    """one output g(a.x) (scalar valued y) or, with case['more'], M = 2..3 outputs g_m(a_m.x) stacked into a vector
+    valued y (y.data of shape (d+1, P, M)): extract_tensor(as_full_matrix=False) then returns one column per output"""
     N, d = int(case['N']), int(case['d'])
-    g_ad, g_mp = RIDGE[case['g']]
-    a = np.asarray(case['a'], dtype=float)
+    outs = [(case['g'], np.asarray(case['a'], dtype=float))] + [(g, np.asarray(a, dtype=float)) for g, a in case.get('more', [])]
+    M = len(outs)
     x0 = np.asarray(case['x0'], dtype=float)
-    what = 'ridge:%s(N=%d,d=%d,base point passed as %s)' % (case['g'], N, d, case.get('x0_form', 'f64'))
+    what = 'ridge:%s(N=%d,d=%d,base point passed as %s)' % ('+'.join(g for g, _ in outs), N, d, case.get('x0_form', 'f64'))
     labels = _labels(N, d, what)
 
     arg = _x0_arg(case)
 
-    def run():
-        x = UTPM.init_tensor(d, arg)
+    def one(x, g, a):
         u = None
         for i in range(N):
             t = x[i] if a[i] == 1.0 else float(a[i]) * x[i]     # a_i = 1: the traced value keeps the dtype of the data
             u = t if u is None else u + t
-        return UTPM.extract_tensor(N, g_ad(u), as_full_matrix=False)
+        return RIDGE[g][0](u)
+
+    def run():
+        x = UTPM.init_tensor(d, arg)
+        if M == 1:
+            y = one(x, *outs[0])
+        else:
+            y = algopy.zeros(M, dtype=x)
+            for m, (g, a) in enumerate(outs):
+                y[m] = one(x, g, a)
+        return UTPM.extract_tensor(N, y, as_full_matrix=False)
     vec = np.asarray(guard(run), dtype=float)
     _x0_unchanged(what, arg, case)
-    if vec.shape != (len(labels),):
-        raise Violation('%s: extract_tensor has shape %s' % (what, vec.shape))
+    want_shape = (len(labels),) if M == 1 else (len(labels), M)
+    if vec.shape != want_shape:
+        raise Violation('%s: extract_tensor has shape %s, expected %s' % (what, vec.shape, want_shape))
     old = mp.dps
     mp.dps = 45
     try:
-        u0 = mpmath.fsum([mpf(float(ai)) * mpf(float(xi)) for ai, xi in zip(a, x0)])
-        gd = mpmath.diff(g_mp, u0, d) / mpmath.factorial(d)     # d-th Taylor coefficient of g at u0
         Gabs, rays = _gamma_abs(N, d)
-        # d-th Taylor coefficient along ray j is gd * (a . ray_j)^d;  term magnitude with absolute values
-        # (for sin/cos the recurrences mix both functions: the magnitude is that of the neighbouring derivatives)
-        gmag = max(abs(mpmath.diff(g_mp, u0, k)) for k in (max(d - 1, 0), d, d + 1)) / mpmath.factorial(d)
-        yabs = np.array([float(gmag) * float(np.abs(a).dot(np.abs(r))) ** d for r in rays])
-        scale = Gabs.dot(yabs)
         worst = 0.0
-        for i, al in enumerate(labels):
-            apow = mpf(1)
-            for ai, e in zip(a, al):
-                if e:
-                    apow *= mpf(float(ai)) ** e
-            ref = gd * mpmath.factorial(d) / _fact(al) * apow
-            if not mpmath.isfinite(ref):
-                raise Inconclusive('non-finite reference')
-            sc = max(float(scale[i]), float(abs(ref)), 1e-300)
-            if not np.isfinite(vec[i]):
-                raise Violation('%s: entry for multi-index %s is %r, reference %s' % (what, al, vec[i], mpmath.nstr(ref, 17)))
-            rel = float(abs(mpf(float(vec[i])) - ref)) / sc
-            worst = max(worst, rel)
-            if rel > _tol(d):
-                raise Violation('%s with a=%s at x0=%s: Gamma.y_d entry for multi-index %s is %.17g, reference '
-                                'a^alpha/alpha! g^(d)(a.x0) = %s (term magnitude %.3e)'
-                                % (what, a.tolist(), x0.tolist(), al, vec[i], mpmath.nstr(ref, 17), sc))
+        for m, (g, a) in enumerate(outs):
+            g_mp = RIDGE[g][1]
+            col = vec if M == 1 else vec[:, m]
+            u0 = mpmath.fsum([mpf(float(ai)) * mpf(float(xi)) for ai, xi in zip(a, x0)])
+            gd = mpmath.diff(g_mp, u0, d) / mpmath.factorial(d)     # d-th Taylor coefficient of g at u0
+            # d-th Taylor coefficient along ray j is gd * (a . ray_j)^d;  term magnitude with absolute values
+            # (for sin/cos the recurrences mix both functions: the magnitude is that of the neighbouring derivatives)
+            gmag = max(abs(mpmath.diff(g_mp, u0, k)) for k in (max(d - 1, 0), d, d + 1)) / mpmath.factorial(d)
+            yabs = np.array([float(gmag) * float(np.abs(a).dot(np.abs(r))) ** d for r in rays])
+            scale = Gabs.dot(yabs)
+            for i, al in enumerate(labels):
+                apow = mpf(1)
+                for ai, e in zip(a, al):
+                    if e:
+                        apow *= mpf(float(ai)) ** e
+                ref = gd * mpmath.factorial(d) / _fact(al) * apow
+                if not mpmath.isfinite(ref):
+                    raise Inconclusive('non-finite reference')
+                sc = max(float(scale[i]), float(abs(ref)), 1e-300)
+                if not np.isfinite(col[i]):
+                    raise Violation('%s: entry for multi-index %s%s is %r, reference %s'
+                                    % (what, al, '' if M == 1 else ' of output %d' % m, col[i], mpmath.nstr(ref, 17)))
+                rel = float(abs(mpf(float(col[i])) - ref)) / sc
+                worst = max(worst, rel)
+                if rel > _tol(d):
+                    raise Violation('%s with a=%s at x0=%s: Gamma.y_d entry for multi-index %s%s is %.17g, reference '
+                                    'a^alpha/alpha! g^(d)(a.x0) = %s (term magnitude %.3e)'
+                                    % (what, a.tolist(), x0.tolist(), al, '' if M == 1 else ' of output %d (%s)' % (m, g),
+                                       col[i], mpmath.nstr(ref, 17), sc))
         stats.err(worst)
     finally:
         mp.dps = old
@@ -513,7 +532,8 @@ def _ridge_nontrivial(case):
 
 
 def _ridge_classes(case):
-    return ['N=%d' % case['N'], 'd=%d' % case['d'], 'consumer:ridge:' + case['g'], 'x0-form=' + case.get('x0_form', 'f64')]
+    return ['N=%d' % case['N'], 'd=%d' % case['d'], 'consumer:ridge:' + case['g'], 'x0-form=' + case.get('x0_form', 'f64'),
+            'ridge-outputs=%d' % (1 + len(case.get('more', [])))]
 
 
 @st.composite
@@ -529,7 +549,17 @@ def ridge_cases(draw, tier):
         x0 = _x0_build(form, ints=draw(st.lists(st.integers(-2, 2), min_size=N, max_size=N)))
     else:
         x0 = _x0_build(form, vals=draw(st.lists(st.integers(-8, 8).map(lambda v: v / 8.0), min_size=N, max_size=N)))
-    return {'N': N, 'd': d, 'g': g, 'a': np.array(a, dtype=float), 'x0': x0, 'x0_form': form}
+    case = {'N': N, 'd': d, 'g': g, 'a': np.array(a, dtype=float), 'x0': x0, 'x0_form': form}
+    if draw(st.integers(0, 2)) == 0:
+        # vector valued y: one or two more outputs with their own g and a
+        more = []
+        for _ in range(draw(st.integers(1, 2))):
+            a2 = draw(st.lists(coef, min_size=N, max_size=N))
+            if not any(a2):
+                a2[-1] = 1.0
+            more.append((draw(st.sampled_from(sorted(RIDGE))), np.array(a2, dtype=float)))
+        case['more'] = more
+    return case
 
 
 # ---------------------------------------------------------------------------
